@@ -110,7 +110,9 @@ pub fn c14_wg(ctx: &mut Ctx, log: &mut Log, im: &mut Impl, or: &mut Oracle) {
         if or.saturated() { or.count("stopped_early_saturated"); break; }
         let n = rng.usize_below(4);
         log.case(&format!("c14-wg-{ci}"));
-        ex(log, im, &format!("g.new {n}"));
+        // half of the histories: a clone of the runner, alive with 0..2 tokens of its own, exists throughout — it must not delay,
+        // nor be needed for, the completion of the ORIGINAL's shutdown
+        if rng.chance(1, 2) { let c = rng.usize_below(3); ex(log, im, &format!("g.new {n} {c}")); or.count("histories_with_live_clone"); } else { ex(log, im, &format!("g.new {n}")); }
         let mut alive: Vec<usize> = (0..n).collect();
         let mut last_pending_wakes: Option<usize> = None;
         let mut last_poller: Option<(bool, usize)> = None;   // (second waker?, its wake count at that poll)
